@@ -6,7 +6,9 @@
    Per tree: the compact layout; every trivia of the menus at every used token
    boundary, one boundary at a time; every quoting form of every argument, one
    argument at a time; every trailing trivia; NLay layouts with all choices drawn
-   at random (TLC -seed).  Trees: family f holds the trees with index = f modulo
+   at random (TLC -seed).  In the quick tier only every fourth small tree gets the
+   one-at-a-time layouts; the choice trees (members in every order) get the compact
+   and the random layouts.  Trees: family f holds the trees with index = f modulo
    NFam of the exhaustive small set plus NTrees random deeper trees.
 
    Before a vector is written TLC checks the spec against itself: ParseText of the
@@ -50,6 +52,24 @@ SmallBodies ==
         <<Cont(Ids[1], <<Cont(Ids[2], <<Leaf(Ids[3], <<Terms[2]>>)>>), Terms[1]>>), Terms[3]>>}
   \cup RawBodies
 Small == SetToSeq(SmallBodies)
+\* choices that mix shorthand members (leaf, container, leaf-list), explicit cases and other substatements, in every order:
+\* the children of the choice are the source statements in source order
+ChoiceMembers == << Leaf(C("la"), << >>), Cont(C("cb"), << >>), Node(C("case"), TRUE, C("cc"), <<Leaf(C("lc"), << >>)>>),
+                    XA("description", ArgPool[1]), X("x:a") >>
+ChoiceMembers2 == << Node(C("leaf-list"), TRUE, C("ll"), <<XA("type", C("string"))>>), Node(C("case"), TRUE, C("c1"), <<Cont(C("k1"), << >>)>>),
+                     Leaf(C("lb"), <<XA("description", ArgPool[2])>>), Node(C("case"), TRUE, C("c2"), << >>) >>
+\* the k-th permutation of a sequence (k from 0), so that no set of all permutations has to be built
+RECURSIVE Fact(_), PermOf(_, _)
+Fact(n) == IF n <= 1 THEN 1 ELSE n * Fact(n - 1)
+PermOf(s, k) == IF s = << >> THEN << >>
+                ELSE LET f == Fact(Len(s) - 1)  i == (k \div f) + 1 IN
+                     <<s[i]>> \o PermOf(SubSeq(s, 1, i - 1) \o SubSeq(s, i + 1, Len(s)), k % f)
+NChoice == 120 + 24
+ChoiceBody(k) == IF k < 120 THEN <<Node(C("choice"), TRUE, C("ch"), PermOf(ChoiceMembers, k))>>
+                 ELSE <<Cont(Ids[1], <<Node(C("choice"), TRUE, C("ch"), PermOf(ChoiceMembers2, k - 120)), Terms[1]>>)>>
+\* which small trees get the full set of layouts (all of them in the thorough tier)
+\* ("shift": trees with fixed source forms get the blank trivia only, which is what moves an occurrence to another column)
+FullSet(i, body) == IF Thorough THEN "full" ELSE IF HasRaw(Module(body)) THEN "shift" ELSE IF i % 4 = 1 THEN "full" ELSE "light"
 
 RE(seq) == seq[RandomElement(1..Len(seq))]
 RECURSIVE RandStmt(_)
@@ -80,22 +100,26 @@ Vec(f, tid, src, L, feat, endPick) ==
   [fam |-> f, tid |-> tid, text |-> L.text, tree |-> L.tree, hasTree |-> TRUE, judged |-> AllJudged(L.tree), feat |-> feat, layoutFree |-> ~HasRaw(src),
    wordThenComment |-> WordThenComment(its, L.text), lineCommentAtEnd |-> (endPick % Len(TrivEnd)) >= Len(TrivOpt), ok |-> Checked(src, L, its)]
 
-Layouts(f, tid, body) ==
+Layouts(f, tid, body, full) ==
   LET src == Module(body)  k == NSlots(src)  P0 == Zero(k)  Q0 == Zero(k)  P1 == [b \in 1..k |-> 1]
       base == Layout(P0, Q0, src, 0)
       used == {base.used[i] : i \in 1..Len(base.used)}
-      one == UNION {{<<u[1], t>> : t \in 1..((IF u[2] = "s" THEN Len(TrivSep) ELSE IF u[2] = "o" THEN Len(TrivOpt) ELSE 5) - 1)} : u \in used}
+      lim(n) == IF full = "shift" /\ n > 8 THEN 8 ELSE n
+      one == UNION {{<<u[1], t>> : t \in 1..(lim(IF u[2] = "s" THEN Len(TrivSep) ELSE IF u[2] = "o" THEN Len(TrivOpt) ELSE 5) - 1)} : u \in used}
       args == {u[1] - 1 : u \in {v \in used : v[2] = "s"}}
   IN {Vec(f, tid, src, base, Feat("base", 0, 0), 0)}
-     \cup {Vec(f, tid, src, Layout([P0 EXCEPT ![x[1]] = x[2]], Q0, src, 0), Feat("trivia", x[1], x[2]), 0) : x \in one}
-     \cup {Vec(f, tid, src, Layout(P1, [Q0 EXCEPT ![x[1]] = x[2]], src, 0), Feat("quoting", x[1], x[2]), 0) : x \in {<<b, q>> : b \in args, q \in 1..5}}
-     \cup {Vec(f, tid, src, Layout(P0, Q0, src, e), Feat("end", 0, e), e) : e \in 1..(Len(TrivEnd) - 1)}
+     \cup (IF full # "light" THEN
+            {Vec(f, tid, src, Layout([P0 EXCEPT ![x[1]] = x[2]], Q0, src, 0), Feat("trivia", x[1], x[2]), 0) : x \in one}
+            \cup {Vec(f, tid, src, Layout(P1, [Q0 EXCEPT ![x[1]] = x[2]], src, 0), Feat("quoting", x[1], x[2]), 0) : x \in {<<b, q>> : b \in args, q \in 1..5}}
+            \cup {Vec(f, tid, src, Layout(P0, Q0, src, e), Feat("end", 0, e), e) : e \in 1..(lim(Len(TrivEnd)) - 1)}
+            ELSE {})
      \cup {LET e == RandomElement(0..(Len(TrivEnd) - 1)) IN
            Vec(f, tid, src, Layout([b \in 1..k |-> RandomElement(0..(MaxMenu - 1))], [b \in 1..k |-> RandomElement(0..5)], src, e), Feat("random", 0, j), e) : j \in 1..NLay}
 
-Cases == LET own == {i \in 1..Len(Small) : i % NFam = fam % NFam} IN
-  UNION {Layouts(fam, i, Small[i]) : i \in own}
-  \cup UNION {Layouts(fam, 1000 * (fam + 1) + j, RandBody(j)) : j \in 1..NTrees}
+Cases ==
+  UNION {Layouts(fam, i, Small[i], FullSet(i, Small[i])) : i \in {i \in 1..Len(Small) : i % NFam = fam % NFam}}
+  \cup UNION {Layouts(fam, 500 + k, ChoiceBody(k), "light") : k \in {k \in 0..(NChoice - 1) : k % NFam = fam % NFam}}
+  \cup UNION {Layouts(fam, 1000 * (fam + 1) + j, RandBody(j), "full") : j \in 1..NTrees}
 GInit == fam \in 0..(NFam - 1) /\ done = FALSE
 GNext == /\ ~done /\ done' = TRUE /\ UNCHANGED fam
          /\ ndJsonSerialize("vec_" \o ToString(fam) \o ".ndjson", SetToSeq(Cases))
